@@ -707,6 +707,16 @@ func (in *interp) execAssign(fr *frame, st state, x *ast.AssignStmt) []result {
 				}
 				v := in.evalExpr(fr, st, x.Rhs[0])
 				if v.fn == nil || !in.isStep(v.fn) {
+					// a helper of the package that chooses between step functions: one outcome per function it can return
+					if fns := in.stepFuncResults(x.Rhs[0], 0); len(fns) > 0 {
+						var out []result
+						for _, fn := range fns {
+							m := st.clone()
+							m.effs = append(m.effs, Eff{K: ESetStep, Fn: fn.Name()})
+							out = append(out, result{st: m})
+						}
+						return out
+					}
 					return in.fail(st, "s.step assigned a value that is not a step function constant", x.Pos())
 				}
 				n.effs = append(n.effs, Eff{K: ESetStep, Fn: v.fn.Name()})
@@ -950,6 +960,15 @@ func (in *interp) execCall(fr *frame, st state, call *ast.CallExpr, isReturn boo
 		}
 		v := in.evalExpr(fr, st, call.Args[0])
 		if v.fn == nil || !in.isStep(v.fn) {
+			if fns := in.stepFuncResults(call.Args[0], 0); len(fns) > 0 {
+				var out []result
+				for _, fn := range fns {
+					m := st.clone()
+					m.effs = append(m.effs, Eff{K: EPush, Fn: fn.Name()})
+					out = append(out, fin(m)...)
+				}
+				return out
+			}
 			return in.fail(st, "push of a value that is not a step function constant", call.Pos())
 		}
 		n.effs = append(n.effs, Eff{K: EPush, Fn: v.fn.Name()})
@@ -1306,6 +1325,93 @@ func (in *interp) callPureRecv(f *types.Func, recv val) *val {
 		}
 		v := r.ret[0]
 		out = &v
+	}
+	return out
+}
+
+// stepFuncResults: the expression is a call of a function of the package whose every return statement returns a step
+// function by name (or the result of another such call): the step functions it can return. Which one is returned
+// depends on data (the parameters of the directive), which the model leaves free -- exactly as it does for an
+// `if <data-dependent predicate> { push(a) } else { push(b) }` written in place. The callee must not touch the scanner
+// state the model tracks (it may only call the pure predicates).
+func (in *interp) stepFuncResults(e ast.Expr, depth int) []*types.Func {
+	call, ok := ast.Unparen(e).(*ast.CallExpr)
+	if !ok || depth > 2 {
+		return nil
+	}
+	f := in.callee(call)
+	if f == nil || f.Pkg() != in.pkg.Types || in.decls[f] == nil || in.isStep(f) {
+		return nil
+	}
+	d := in.decls[f]
+	if d.Type.Results == nil || len(d.Type.Results.List) != 1 || len(d.Type.Results.List[0].Names) != 0 {
+		return nil
+	}
+	// no effect on tracked state: no assignment to a scanner field, no foundAt/Push/Pop, no call of a step function
+	clean := true
+	ast.Inspect(d.Body, func(n ast.Node) bool {
+		switch x := n.(type) {
+		case *ast.AssignStmt:
+			for _, l := range x.Lhs {
+				if in.fieldOf(l) != nil {
+					clean = false
+				}
+			}
+		case *ast.IncDecStmt:
+			if in.fieldOf(x.X) != nil {
+				clean = false
+			}
+		case *ast.CallExpr:
+			if g := in.callee(x); g != nil && (g == in.mFoundAt || g == in.mPush || g == in.mPop || in.isStep(g)) {
+				clean = false
+			}
+			if fld := in.fieldOf(x.Fun); fld != nil && fld == in.fStep {
+				clean = false
+			}
+		}
+		return true
+	})
+	if !clean {
+		return nil
+	}
+	seen := map[*types.Func]bool{}
+	var out []*types.Func
+	good := true
+	ast.Inspect(d.Body, func(n ast.Node) bool {
+		if _, isLit := n.(*ast.FuncLit); isLit {
+			return false
+		}
+		ret, isRet := n.(*ast.ReturnStmt)
+		if !isRet {
+			return true
+		}
+		if len(ret.Results) != 1 {
+			good = false
+			return true
+		}
+		if id, isId := ast.Unparen(ret.Results[0]).(*ast.Ident); isId {
+			if fn, isFn := in.pkg.TypesInfo.Uses[id].(*types.Func); isFn && in.isStep(fn) {
+				if !seen[fn] {
+					seen[fn] = true
+					out = append(out, fn)
+				}
+				return true
+			}
+		}
+		if sub := in.stepFuncResults(ret.Results[0], depth+1); len(sub) > 0 {
+			for _, fn := range sub {
+				if !seen[fn] {
+					seen[fn] = true
+					out = append(out, fn)
+				}
+			}
+			return true
+		}
+		good = false
+		return true
+	})
+	if !good {
+		return nil
 	}
 	return out
 }
